@@ -7,7 +7,7 @@
   modelled by an (over-approximating) decomposition: whole == g1 ++ g2 ++ ..., g_i in L(piece_i).
   \\d and \\w are modelled as their ASCII ranges -- stated as an assumption whenever used.
 """
-import re, ast
+import re, ast, os
 try:
     import re._parser as _sp, re._constants as _sc
 except ImportError:      # pragma: no cover
@@ -112,22 +112,30 @@ def regex_match(ex, rx, s, mode):
     matched = z3.InRe(s.t, full)
     # groups: decomposition of the matched span along the top-level sequence
     groups = {}; names = dict(rx.groupindex)
-    if any(op == _sc.SUBPATTERN for op, _ in core):
+    mv = MatchV(groups, names, s)
+    if any(op == _sc.SUBPATTERN for op, _ in core) or mode == 'search':
         pieces = []
         head = fresh('re_pre', z3.StringSort()); tail = fresh('re_post', z3.StringSort())
         facts = [z3.InRe(head, pre), z3.InRe(tail, post)]
-        for op, av in core:
-            g = fresh('re_g', z3.StringSort())
-            facts.append(z3.InRe(g, to_z3re([(op, av)], notes)))
-            pieces.append(g)
-            if op == _sc.SUBPATTERN and av[0] is not None: groups[av[0]] = V(TStr, g)
-        whole = z3.Concat(*pieces) if len(pieces) > 1 else pieces[0]
+        if any(op == _sc.SUBPATTERN for op, _ in core):
+            for op, av in core:
+                g = fresh('re_g', z3.StringSort())
+                facts.append(z3.InRe(g, to_z3re([(op, av)], notes)))
+                pieces.append(g)
+                if op == _sc.SUBPATTERN and av[0] is not None: groups[av[0]] = V(TStr, g)
+            whole = z3.Concat(*pieces) if len(pieces) > 1 else pieces[0]
+        else:
+            whole = fresh('re_m', z3.StringSort()); facts.append(z3.InRe(whole, body))
         facts.append(s.t == z3.Concat(head, whole, tail))
+        if mode == 'search' and not a0 and not os.environ.get('PYVC_NO_LEFTMOST'):
+            # re.search returns the leftmost match: no match starts before it
+            p = z3.Int('re_p!q'); rest = z3.Concat(body, post)
+            facts.append(z3.ForAll([p], z3.Implies(z3.And(p >= 0, p < z3.Length(head)), z3.Not(z3.InRe(z3.SubString(s.t, p, z3.Length(s.t) - p), rest)))))
         ex.assume(z3.Implies(matched, z3.And(*facts)))
-        groups[0] = V(TStr, whole)
+        groups[0] = V(TStr, whole); mv.head = head; mv.whole = whole
     else:
         groups[0] = None
-    return matched, MatchV(groups, names, s)
+    return matched, mv
 
 def install(vf):
     """default string library for a Verifier"""
